@@ -62,7 +62,7 @@ def run(ctx):
         ctx.guard(consumers.accept_sets, ctx, cfg, fs, 'A.accept-sets')
         import c08, c09, c11, c02
         ctx.guard(c08.keep_only, ctx, lambda: c02.equals_value(ctx, cfg, fs), lambda o: True, 'A.accept-sets')
-        if cfg != 'none':
+        if fs.find(r'complete_run::.*ArgScanner.*check_next$', required=False):
             ctx.guard(c08.keep_only, ctx, lambda: c11.completion_marker(ctx, cfg, fs), lambda o: True, 'K.marker-only')
         ctx.guard(c08.keep_only, ctx, lambda: c09.tokenizer(ctx, cfg, fs), lambda o: 'marker-' in o.key, 'T.tokenizer')
 
